@@ -4,7 +4,7 @@ import vf
 from vf import Case
 import samples
 from props.c10 import hx
-from props.c04 import TYPES, gen_model, Layout
+from props.c04 import TYPES, gen_model, Layout, tspec as c04_tspec
 from props import c01
 
 ORACLE = os.path.join(os.path.dirname(os.path.dirname(os.path.abspath(__file__))), 'oracles', 'oas_validate.py')
@@ -32,7 +32,12 @@ def to_leaf(lit, ann):
         elif n in ('precision', 'minLength', 'maxLength'):
             rules.append((n, int(v[1])))
         elif n == 'enum':
-            rules.append(('enum', [x[1] for x in v[1]]))
+            if v[0] == 's':      # enum: @rule
+                from props.c04 import RULES
+                import json as _j
+                rules.append(('enum', [_j.dumps(x) for x in _j.loads(RULES[v[1]])]))
+            else:
+                rules.append(('enum', [x[1] for x in v[1]]))
         elif n == 'nullable' and v[1] == 'true':
             rules.append(('nullable',))
         elif n == 'const' and v[1] == 'true':
@@ -119,7 +124,7 @@ class Prop:
 
     def run_impl(self, lines):
         texts = [l.split(' ')[1] for l in lines]
-        tspec = ' '.join('T %s J %s' % (hx(k), hx(v)) for k, v in TYPES.items())
+        tspec = c04_tspec()
         res = vf.run_impl(['proj all %s %s' % (t, tspec) for t in texts])
         comp = vf.run_impl(['proj openapi %s %s' % (hx(v), tspec) for k, v in TYPES.items()])
         self.components = {}
